@@ -46,6 +46,12 @@ CLAIMED = {
    note="Trusted: Lean kernel; the go/types extractor; the hand classification of the 14 loop bodies (a changed body invalidates it); filesystem, templates and WriteFileIfNeeded are only exercised, not modelled.",
    technique="Lean 4 proof (permutation invariance) + go/types site extraction + repeated-run differential",
    design="§7 C12"),
+ "C11": dict(
+   engine="cli",
+   text="Kernel-checked: over the call list of generateImpl regenerated by go/ast on every run, nothing that may write precedes validatePackage and its error is returned (unknown callees count as writers); for every file system, every behaviour of the other calls and every writer effect, a failing validation leaves the file system unchanged and the command fails; every parse/validate/evolution call inside validatePackage and the recursive import parsing returns its error. Tied to the CLI by invalid packages (11 error sites: main, import, previous version, evolution, manifest, --config) x output configurations x empty/populated output directories with content+mtime snapshots.",
+   note="Trusted: Lean kernel; the go/ast extractor and the list of callees known to be pure; the file system and the generators themselves are abstract (only 'may write' is modelled).",
+   technique="Lean 4 proof over a regenerated call list + snapshot differential on the CLI",
+   design="§7 C11"),
 }
 NOT_YET = "machinery for this property is not built yet in this round (see DESIGN.md §10 build order)"
 checks, na = [], []
@@ -79,6 +85,8 @@ m = {
     "kind_free_text": "model of collectPackages; worlds enumerated by checks/c18.py"},
    {"name": "determinism", "path": "lean/YardlModel/Determinism.lean", "serves_properties": ["C12"],
     "kind_free_text": "sorted sinks / map iteration as adversarial permutation; sites from harness/go/cmd/facts"},
+   {"name": "cli", "path": "lean/YardlModel/Cli.lean", "serves_properties": ["C11"],
+    "kind_free_text": "generateImpl as a fallible call sequence over an abstract FS; call list from harness/go/cmd/facts pipeline"},
    {"name": "wire", "path": "lean/YardlModel/Wire.lean", "serves_properties": ["C01", "C03", "C15", "C16", "C17"],
     "kind_free_text": "Lean model of the binary format + buffered stream implementations; line-protocol driver lean/Main/WireDriver.lean"},
  ],
